@@ -50,16 +50,28 @@ Lemma example_worlds :
 Proof. vm_compute. repeat split. Qed.
 
 (* ------------------------------------------------------------------ the limits, spelled out *)
+Definition fits (o : option N) (lim : N) : Prop := exists n, o = Some n /\ n <= lim.
+Lemma ole_fits o lim : ole o lim = true -> fits o lim.
+Proof. destruct o as [n|]; cbn; [|discriminate]. intro H. exists n. split; [reflexivity | apply N.leb_le; exact H]. Qed.
+
 Lemma limits_spelled c kk m : limits_ok c kk m = true ->
-  match c with
-  | Bare => N.of_nat (length (encode (val_keyenv kk) m)) <= 10000 /\ ops_bound kk m <= 201
-  | Legacy => N.of_nat (length (encode (val_keyenv kk) m)) <= 520 /\ ops_bound kk m <= 201 /\ wit_bytes kk m <= 1650
-  | Segwitv0 => N.of_nat (length (encode (val_keyenv kk) m)) <= 3600 /\ ops_bound kk m <= 201
-                /\ wit_items m + 1 <= 100 /\ stack_bound kk m <= 1000
-  | Tap => stack_bound kk m <= 1000
-  end.
+  N.of_nat (length (encode (val_keyenv kk) m)) <= MAX_SCRIPT_SIZE_CTX c
+  /\ pk_cost_of c kk m <= MAX_SCRIPT_SIZE_CTX c
+  /\ lib_script_size c kk m <= MAX_SCRIPT_SIZE_CTX c
+  /\ match c with
+     | Bare => fits (exec_ops c kk m) 201
+     | Legacy => fits (exec_ops c kk m) 201 /\ fits (ssig_bytes c kk m) 1650
+     | Segwitv0 => fits (exec_ops c kk m) 201 /\ fits (option_map (N.add 1) (wit_count c kk m)) 100
+                   /\ fits (stack_count c kk m) 1000
+     | Tap => forall n, stack_count c kk m = Some n -> n <= 1000
+     end.
 Proof.
-  unfold limits_ok, script_len. destruct c; intro H;
-    repeat match goal with E : _ && _ = true |- _ => apply andb_true_iff in E; destruct E end;
-    repeat match goal with E : (_ <=? _) = true |- _ => apply N.leb_le in E end; auto.
+  unfold limits_ok, script_len. intro H.
+  apply andb_true_iff in H as [H H4]. apply andb_true_iff in H as [H H3]. apply andb_true_iff in H as [H1 H2].
+  apply N.leb_le in H1, H2, H3. repeat (split; [assumption|]).
+  destruct c.
+  - apply ole_fits. exact H4.
+  - apply andb_true_iff in H4 as [A B]. split; apply ole_fits; assumption.
+  - apply andb_true_iff in H4 as [A C]. apply andb_true_iff in A as [A B]. repeat split; apply ole_fits; assumption.
+  - intros n Hn. rewrite Hn in H4. apply N.leb_le. exact H4.
 Qed.
